@@ -56,13 +56,14 @@ class Concat(Expr):
     @functools.cached_property
     def _meta(self):
         # ignore DataFrame without columns to avoid dtype upcasting
+        frames = [
+            df for df in self._frames if df.ndim < 2 or len(df._meta.columns) > 0
+        ]
+        if len(frames) == 0:
+            frames = self._frames
         return make_meta(
             methods.concat(
-                [
-                    meta_nonempty(df._meta)
-                    for df in self._frames
-                    if df.ndim < 2 or len(df._meta.columns) > 0
-                ],
+                [meta_nonempty(df._meta) for df in frames],
                 join=self.join,
                 filter_warning=False,
                 axis=self.axis,
@@ -244,15 +245,20 @@ class Concat(Expr):
             ):
                 return
 
+            # When stacking rows (axis=0) a frame without any of the requested
+            # columns still contributes its rows, so it can't be dropped
             frames = [
                 (
                     frame[cols]
                     if sorted(cols) != sorted(get_columns_or_name(frame))
+                    and frame.ndim == 2
                     else frame
                 )
                 for frame, cols in zip(self._frames, columns_frame)
-                if len(cols) > 0
+                if len(cols) > 0 or self.axis == 0
             ]
+            if len(frames) == 0:
+                return
             result = type(self)(
                 self.join,
                 self.ignore_order,
